@@ -40,12 +40,12 @@ var c16Terminals = []error{io.EOF, io.ErrUnexpectedEOF, io.ErrNoProgress, io.Err
 	errors.New("read: use of closed file"), fmt.Errorf("wrapped: %w", io.EOF)}
 
 type c16Item struct {
-	id     int // packet id, -1 for errors
-	data   []byte
-	ci     gopacket.CaptureInfo
-	err    error
-	term   bool
-	hold   bool // the read blocks until the harness releases it (cancel tests)
+	id   int // packet id, -1 for errors
+	data []byte
+	ci   gopacket.CaptureInfo
+	err  error
+	term bool
+	hold bool // the read blocks until the harness releases it (cancel tests)
 }
 
 // c16Source replays a script. In zero-copy mode it really reuses one buffer and scribbles over it on every read.
@@ -195,9 +195,9 @@ func c16Pull(c *vlib.Ctx) {
 		o := c16AllOpts(r)
 		_, ps := c16MkSource(items, o)
 		type kept struct {
-			p   gopacket.Packet
-			s   sig.PacketSig
-			it  c16Item
+			p  gopacket.Packet
+			s  sig.PacketSig
+			it c16Item
 		}
 		var keep []kept
 		aliasOK := o.zero && o.do.NoCopy // the caller asked for aliasing: later reads overwrite the packet by design
